@@ -7,7 +7,7 @@ use serde_json::{json, Value};
 use std::time::Duration;
 
 /// a Datalog program whose naive evaluation has exactly the given level sizes
-pub fn program_for(levels: &[u64]) -> String {
+pub fn program_for(levels: &[u64], slow: bool) -> String {
     let n0 = levels[0];
     let p = levels.len() - 1;
     let mut s = String::new();
@@ -41,7 +41,12 @@ pub fn program_for(levels: &[u64]) -> String {
         for i in 0..(n0 - base) {
             s += &format!("pad({i});\n");
         }
-        s += "reach($y) <- reach($x), succ($x, $y);\n";
+        if slow {
+            // every pass calls an extern function that outlasts max_time
+            s += "reach($y) <- reach($x), succ($x, $y), $x.extern::slow();\n";
+        } else {
+            s += "reach($y) <- reach($x), succ($x, $y);\n";
+        }
     }
     s += "allow if true;\n";
     s
@@ -60,6 +65,9 @@ fn replay_case(idx: usize, case: &Value) -> Value {
     let levels: Vec<u64> = sc["levels"].as_array().unwrap().iter().map(|x| x.as_u64().unwrap()).collect();
     let mf = sc["mf"].as_u64().unwrap();
     let mi = sc["mi"].as_u64().unwrap();
+    let mt = sc["mt"].as_u64().unwrap();
+    let cost = sc["cost"].as_u64().unwrap();
+    let slow = cost > 0;
     let calls: Vec<String> = sc["calls"].as_array().unwrap().iter().map(|x| x.as_str().unwrap().to_string()).collect();
     let admissible: Vec<Vec<String>> = case["admissible"]
         .as_array()
@@ -68,9 +76,22 @@ fn replay_case(idx: usize, case: &Value) -> Value {
         .map(|s| s.as_array().unwrap().iter().map(|x| x.as_str().unwrap().to_string()).collect())
         .collect();
     let mut problems: Vec<String> = Vec::new();
-    let code = program_for(&levels);
-    let limits = RunLimits { max_facts: mf, max_iterations: mi, max_time: Duration::from_secs(30) };
-    let built = AuthorizerBuilder::new().code(&code).map(|b| b.limits(limits)).and_then(|b| b.build_unauthenticated());
+    let chain = levels.len() > 1 && levels.windows(2).all(|w| w[1] == w[0] + 1);
+    if slow && !chain {
+        // only chain programs have a slow variant
+        return json!({"idx": idx, "ok": true, "problems": [], "observed": [], "events": [], "skipped": true});
+    }
+    let code = program_for(&levels, slow);
+    let max_time = if mt < 100 { Duration::from_millis(15) } else { Duration::from_secs(30) };
+    let limits = RunLimits { max_facts: mf, max_iterations: mi, max_time };
+    let slow_fn = biscuit_auth::datalog::ExternFunc::new(std::sync::Arc::new(|_l, _r| {
+        std::thread::sleep(Duration::from_millis(40));
+        Ok(biscuit_auth::builder::Term::Bool(true))
+    }));
+    let built = AuthorizerBuilder::new()
+        .code(&code)
+        .map(|b| b.limits(limits).register_extern_func("slow".to_string(), slow_fn))
+        .and_then(|b| b.build_unauthenticated());
     let mut a = match built {
         Ok(a) => a,
         Err(e) => {
@@ -79,7 +100,7 @@ fn replay_case(idx: usize, case: &Value) -> Value {
     };
     let mut observed: Vec<String> = Vec::new();
     let mut detail: Vec<Value> = Vec::new();
-    let mut events: Vec<Value> = vec![json!({"ev": "scenario", "levels": levels, "mf": mf, "mi": mi})];
+    let mut events: Vec<Value> = vec![json!({"ev": "scenario", "levels": levels, "mf": mf, "mi": mi, "mt": mt, "cost": cost})];
     for c in &calls {
         biscuit_auth::verif::record(true);
         let r = util::catch(|| match c.as_str() {
